@@ -314,6 +314,14 @@ func TestC18_Random(t *testing.T) {
 				vk.NonTrivial(s)
 			}
 			vk.Sample(map[string]any{"kind": "near", "name": s, "accepted": acc})
+			if len(s) > 0 {
+				// the same name with one character replaced by a neighbour of the accepted ranges
+				// ('0'-1, '9'+1, 'a'-1, 'z'+1, the upper-case bounds and their neighbours)
+				i := rapid.IntRange(0, len(s)-1).Draw(t, "pos")
+				c := rapid.SampledFrom([]byte{'/', ':', '`', '{', '@', 'Z', '[', '^', 0x7f, '.', 'A', 0xe9}).Draw(t, "neighbour")
+				checkName(t, s[:i]+string([]byte{c})+s[i+1:])
+				vk.Class("near-with-range-neighbour")
+			}
 		case 2: // unicode
 			s := rapid.String().Draw(t, "unicode")
 			checkName(t, s)
@@ -415,7 +423,6 @@ func TestC18_Random(t *testing.T) {
 	})
 	checkRegistry(t, "after random")
 }
-
 
 // TestC18_Lifecycle: the registry is idempotent across the configuration life cycle too. rapid
 // draws a history over {register an accepted name (new or seen), register a rejected name,
